@@ -337,6 +337,9 @@ class HistogramFillerBase:
                         # would make the histograms of two chunks impossible to add.
                         q = (0.0, 0.0)
                     qdiff = (q[1] - q[0]) * (1.0 / 0.9) if q[1] > q[0] else 1.0
+                    # the 5% margins must survive the rounding at this magnitude (a constant time stamp is 1.6e18 ns:
+                    # subtracting 0.05 changes nothing there and low would equal high)
+                    qdiff = max(qdiff, 64.0 * float(np.spacing(max(abs(float(q[0])), abs(float(q[1]))))) / 0.05)
                     bin_width = qdiff / float(n_bins)
                     bin_offset = q[0] - qdiff * 0.05
                     low = q[0] - qdiff * 0.05
